@@ -178,8 +178,9 @@ def plumbing(rep: Report, prog: Program) -> None:
                 if 'j_precompute' in t:
                     body = n.body if isinstance(n.body, list) else [n.body]
                     orelse = n.orelse if isinstance(n.orelse, list) else [n.orelse]
-                    bc = {callee_last(x) for s in body for x in ast.walk(s) if isinstance(x, ast.Call)}
-                    oc = {callee_last(x) for s in orelse for x in ast.walk(s) if isinstance(x, ast.Call)}
+                    # the construction is selected by calling it in the branch or by binding it to a name that is called later
+                    bc = {callee_last(x) for s in body for x in ast.walk(s) if isinstance(x, ast.Call)} | {x.id for s in body for x in ast.walk(s) if isinstance(x, ast.Name) and isinstance(x.ctx, ast.Load)}
+                    oc = {callee_last(x) for s in orelse for x in ast.walk(s) if isinstance(x, ast.Call)} | {x.id for s in orelse for x in ast.walk(s) if isinstance(x, ast.Name) and isinstance(x.ctx, ast.Load)}
                     neg = t.startswith('not ')
                     pre_in_true = 'J_precompute_products' in (oc if neg else bc)
                     plain_in_false = 'J' in (bc if neg else oc)
